@@ -133,22 +133,6 @@ def showPat (p : Pat) : List UInt8 := render {} p
 /-- a second printer: upper case hex digits and alignment letters -/
 def showPatUpper (p : Pat) : List UInt8 := render { upperHex := true, upperAlign := true } p
 
-/-- insert one space between neighbouring items of every sequence (the documentation's own spacing:
-`e8 $ { ' } 83 f0 5c c3`) -/
-def isWsItem : Item → Bool | .ws _ => true | _ => false
-mutual
-def spaceItem : Item → Item
-  | .group j _ body => .group j [32] (.ws [32] :: spaceOut body)
-  | .alt bodies => .alt (spaceAlts bodies)
-  | it => it
-def spaceOut : List Item → List Item
-  | [] => []
-  | it :: r => spaceItem it :: .ws [32] :: spaceOut r
-def spaceAlts : List (List Item) → List (List Item)
-  | [] => []
-  | b :: bs => (.ws [32] :: spaceOut b) :: spaceAlts bs
-end
-
 /-! ## Well-formedness: the side conditions the syntax imposes -/
 
 def isWsByte (c : UInt8) : Bool := c = 32 || c = 9 || c = 10 || c = 13
@@ -389,44 +373,56 @@ def WF (p : Pat) : Bool :=
 
 Two places where `exec` deviates from the reading above (witnesses in `Thm/C11.lean`):
 * the LAST alternative of a `( | )` is not a frame of its own — `Nop, Aₙ…` runs inline — so a `[a-b]`
-  directly inside it retries over everything up to the end of the ENCLOSING group;
+  directly inside it retries over everything up to the end of the ENCLOSING group; that differs from the
+  documented scope unless nothing follows the `)` in its group;
 * a `[a-b]` that the parser trims from the end of the pattern is not executed at all, while everywhere
   else it requires the candidate position to exist. -/
 
-/- a `[a-b]` whose retry scope is the sequence itself (not nested in a brace / non-last alternative) -/
-mutual
-def openRangeItem : Item → Bool
-  | .range _ _ => true
-  | .alt bodies => openRangeLast bodies
+/-- items that emit no atom -/
+def silentItem : Item → Bool
+  | .ws _ => true
+  | .skip n => n = 0
+  | .str bs => bs = []
   | _ => false
-def openRange : List Item → Bool
-  | [] => false
-  | it :: r => openRangeItem it || openRange r
-def openRangeLast : List (List Item) → Bool
-  | [] => false
-  | [b] => openRange b
-  | _ :: bs => openRangeLast bs
-end
 
-/- no `[a-b]` directly inside the last alternative of any `( | )` -/
+def silent (r : List Item) : Bool := r.all silentItem
+
+/- `scopeOK t items`: every `[a-b]` of the sequence retries over its documented scope.  `t` says that the
+sequence ends where its frame ends (brace body, non-last alternative, whole pattern, or a last
+alternative behind which nothing follows in such a sequence); a `[a-b]` directly in the sequence needs
+`t`. -/
 mutual
-def closedLastItem : Item → Bool
-  | .group _ _ body => closedLast body
-  | .alt bodies => !openRangeLast bodies && closedLastAlts bodies
-  | _ => true
-def closedLast : List Item → Bool
+def scopeOK (t : Bool) : List Item → Bool
   | [] => true
-  | it :: r => closedLastItem it && closedLast r
-def closedLastAlts : List (List Item) → Bool
+  | .range _ _ :: r => t && scopeOK t r
+  | .group _ _ body :: r => scopeOK true body && scopeOK t r
+  | .alt bodies :: r => scopeOKAlts (t && silent r) bodies && scopeOK t r
+  | _ :: r => scopeOK t r
+def scopeOKAlts (tl : Bool) : List (List Item) → Bool
   | [] => true
-  | b :: bs => closedLast b && closedLastAlts bs
+  | [b] => scopeOK tl b
+  | b :: bs => scopeOK true b && scopeOKAlts tl bs
 end
 
 def isMany : Atom → Bool | .many _ => true | _ => false
 
-/-- the fragment: ranges are scoped as documented and none of them is trimmed away -/
+/-- the fragment: ranges are scopeOK as documented and none of them is trimmed away -/
 def InFragment (p : Pat) : Bool :=
-  closedLast p && !(trimmedTail (compileRaw p)).any isMany
+  scopeOK true p && !(trimmedTail (compileRaw p)).any isMany
+
+/-! ## Side condition on file images
+
+On a `PeFile` the interpreter reads bytes through the FIRST section whose virtual extent contains the
+rva, but `exec_many` peeks through the slice of the section the skip started in.  The two agree when the
+virtual extents of the sections are pairwise disjoint (and do not wrap) — the layout every linker
+produces and the only one for which "the byte at an rva" is unambiguous. -/
+
+/-- decidable: extents `[va, va + max(vs, rs))` do not wrap and are pairwise disjoint -/
+def secsDisjointB : List Pe.Sec → Bool
+  | [] => true
+  | s :: r =>
+    decide (s.va + max s.vs s.rs < 4294967296) &&
+    r.all (fun t => decide (s.va + max s.vs s.rs ≤ t.va) || decide (t.va + max t.vs t.rs ≤ s.va)) && secsDisjointB r
 
 /-! ## Reference reader: the inverse of `render`
 
